@@ -280,7 +280,9 @@ Section RingStore.
     | Some hd => k hd
     end.
 
-  Definition has_no_data (k : vkey) : bool := N.eqb (vk_ndata k) 0.
+  (* copyKey (key.go): a key must carry data unless it is the marker DestroyKey leaves (state destroyed,
+     no data) - the pinned code refused those too (fix 6b19776) *)
+  Definition has_no_data (k : vkey) : bool := N.eqb (vk_ndata k) 0 && negb (N.eqb (vk_state k) KEY_DESTROYED).
 
   (** KeyRing.importASN1 into a fresh KeyRing object *)
   Definition import_asn1 (s : rstate) (p : bytes) (ks : list vkey) (cur : Z) (pre : list ev)
